@@ -15,7 +15,9 @@ RULE = ('cases = 1-3 particle arrays (0-12 particles, ghosts at the tail, '
         'some arrays empty, some lacking dt_cfl/dt_force/dt_visc/dt_adapt), '
         'criterion values >= 0 incl. all zero, h log-uniform in [1e-3,1e3] '
         '(incl. all h > 1), cfl in (0,1], fixed_h on/off, 1-3 rounds of '
-        'changing values then update then compute. Non-trivial = >= 2 '
+        'changing values (and, without fixed_h, arrays that are empty in '
+        'some rounds and filled in others) then update then compute on the '
+        'same Integrator. Non-trivial = >= 2 '
         'criteria positive and min h != 1; distinct by case hash.')
 ASSUMPTIONS = [
     'hmin may be the minimum over all particles or over real particles '
@@ -25,7 +27,8 @@ ASSUMPTIONS = [
 ESSENTIAL_LABELS = {'all': ['empty_array', 'all_h_gt_1', 'dt_adapt',
                             'no_criterion', 'ghosts', 'fixed_h',
                             'missing_props', 'solver_path',
-                            'solver_damped']}
+                            'solver_damped', 'array_appears',
+                            'dt_adapt_appears']}
 
 CRIT = ('dt_cfl', 'dt_force', 'dt_visc')
 
@@ -63,9 +66,19 @@ def case_strategy(draw):
                          10.0 ** draw(st.floats(-3, 3)) for _ in range(n)]
                 vals[pr] = v
             rounds.append(vals)
-        arrays.append(dict(n=n, nghost=nghost, props=props, rounds=rounds))
+        # the array may be empty in some rounds and hold its particles in
+        # others (an inlet-fed fluid, an outlet that drains): the same
+        # integrator sees both
+        present = [draw(st.sampled_from([True, True, True, False]))
+                   for _ in range(3)]
+        arrays.append(dict(n=n, nghost=nghost, props=props, rounds=rounds,
+                           present=present))
+    fixed_h = draw(st.booleans())
+    if fixed_h:
+        for a in arrays:
+            a['present'] = [True, True, True]
     return dict(arrays=arrays, cfl=draw(st.floats(0.01, 1.0)),
-                fixed_h=draw(st.booleans()),
+                fixed_h=fixed_h,
                 nrounds=draw(st.integers(1, 3)),
                 dt=10.0 ** draw(st.floats(-4, 1)),
                 via_solver=draw(st.booleans()),
@@ -78,10 +91,16 @@ class AEval(object):
         self.particle_arrays = pas
 
 
+def present(a, r):
+    return a.get('present', [True, True, True])[r]
+
+
 def expected(case, r):
     """Documented value for round r (r=0 values when fixed_h for h)."""
     import numpy as np
-    arrs = case['arrays']
+    arrs = [dict(a, n=a['n'] if present(a, r) else 0,
+                 nghost=a['nghost'] if present(a, r) else 0)
+            for a in case['arrays']]
     adapt_vals = []
     has_adapt = False
     for a in arrs:
@@ -95,7 +114,7 @@ def expected(case, r):
     h_all = []
     h_real = []
     for a in arrs:
-        hs = a['rounds'][hr]['h']
+        hs = a['rounds'][hr]['h'][:a['n']]
         h_all += hs
         h_real += hs[:a['n'] - a['nghost']]
     fac = {}
@@ -141,25 +160,41 @@ def check(case):
     hm = [max([h for a in case['arrays'] for h in a['rounds'][r]['h']] or
               [1.0]) for r in range(3)]
     sp = 0.05 * min(hm)
-    for i, a in enumerate(case['arrays']):
-        n = a['n']
+    def coords(i, n):
         x = (np.arange(n, dtype=float) * 0.37 + i * 0.11) * sp
-        pa = get_particle_array(name='a%d' % i, x=x, y=x * 0.5, z=x * 0.25,
-                                h=np.array(a['rounds'][0]['h'], dtype=float))
+        return x, x * 0.5, x * 0.25
+
+    def tags(a):
+        tag = np.zeros(a['n'], dtype=np.int32)
+        if a['nghost']:
+            tag[a['n'] - a['nghost']:] = 2
+        return tag
+
+    for i, a in enumerate(case['arrays']):
+        n = a['n'] if present(a, 0) else 0
+        x, y, z = coords(i, n)
+        pa = get_particle_array(name='a%d' % i, x=x, y=y, z=z,
+                                h=np.array(a['rounds'][0]['h'][:n],
+                                           dtype=float))
         for pr in a['props']:
             pa.add_property(pr)
-        tag = np.zeros(n, dtype=np.int32)
-        if a['nghost']:
-            tag[n - a['nghost']:] = 2
+        if n and a['nghost']:
             labels.append('ghosts')
-        pa.tag[:] = tag
+        if n:
+            pa.tag[:] = tags(a)
         pa.align_particles()
         pas.append(pa)
         if n == 0:
             labels.append('empty_array')
         if len(a['props']) < 3:
             labels.append('missing_props')
-    total = sum(a['n'] for a in case['arrays'])
+        pr_ = a.get('present', [True] * 3)[:case['nrounds']]
+        if a['n'] and any(pr_[k] and not all(pr_[:k])
+                          for k in range(1, len(pr_))):
+            labels.append('array_appears')
+            if 'dt_adapt' in a['props']:
+                labels.append('dt_adapt_appears')
+    total = sum(a['n'] if present(a, 0) else 0 for a in case['arrays'])
     nnps = None
     if total > 0:
         nnps = LinkedListNNPS(dim=3, particles=pas, radius_scale=2.0)
@@ -167,7 +202,20 @@ def check(case):
     integ.set_acceleration_evals(AEval(pas))
 
     def setvals(r):
-        for pa, a in zip(pas, case['arrays']):
+        for i, (pa, a) in enumerate(zip(pas, case['arrays'])):
+            cur = pa.get_number_of_particles()
+            if present(a, r) and cur == 0 and a['n']:
+                x, y, z = coords(i, a['n'])
+                pa.add_particles(x=x, y=y, z=z, tag=tags(a),
+                                 h=np.array(a['rounds'][r]['h'],
+                                            dtype=float))
+                pa.align_particles()
+                if a['nghost']:
+                    labels.append('ghosts')
+            elif not present(a, r) and cur:
+                pa.remove_particles(np.arange(cur))
+            if not present(a, r) or not a['n']:
+                continue
             vals = a['rounds'][r]
             for k, v in vals.items():
                 if k == 'h' and case['fixed_h'] and r > 0:
@@ -219,11 +267,12 @@ def check(case):
         if how == 'none':
             labels.append('no_criterion')
         hr = 0 if case['fixed_h'] else r
-        hs = [h for a in case['arrays'] for h in a['rounds'][hr]['h']]
+        hs = [h for a in case['arrays'] if present(a, r)
+              for h in a['rounds'][hr]['h']]
         all_gt1 = bool(hs) and min(hs) > 1.0
         if all_gt1:
             labels.append('all_h_gt_1')
-        kl = dict(how=how, any_empty=any(a['n'] == 0
+        kl = dict(how=how, any_empty=any(a['n'] == 0 or not present(a, r)
                                           for a in case['arrays']),
                   all_h_gt_1=all_gt1)
 
@@ -264,7 +313,7 @@ def check(case):
             npos = 0
             for c in CRIT:
                 for a in case['arrays']:
-                    if c in a['props'] and any(
+                    if c in a['props'] and present(a, r) and any(
                             v > 0 for v in a['rounds'][r][c][:a['n'] -
                                                              a['nghost']]):
                         npos += 1
